@@ -44,7 +44,25 @@ pub fn grid() -> Vec<(Cfg, bool)> {
             }
         }
     }
+    // durations without an upper bound: nothing in the builder (nor in the command-line layer) bounds the round durations or the grace
+    // period from above; the value UNBOUNDED (4e18 ns, it still fits the 63-bit integers of the model driver) stands for Duration::MAX ("no time limit")
+    for proto in [Protocol::Icmp, Protocol::Udp, Protocol::Tcp] {
+        for v6 in [false, true] {
+            for (min_ns, max_ns, grace_ns) in [(0u64, UNBOUNDED, 1_000_000u64), (1_000_000, UNBOUNDED, 0), (0, 20_000_000, UNBOUNDED), (UNBOUNDED, UNBOUNDED, 0), (UNBOUNDED, UNBOUNDED, UNBOUNDED)] {
+                let portdir = match proto { Protocol::Icmp => PortDirection::None, Protocol::Udp => PortDirection::new_fixed_src(5000), Protocol::Tcp => PortDirection::new_fixed_dest(80) };
+                v.push((Cfg {
+                    proto, strategy: MultipathStrategy::Classic, portdir, target: target(v6), trace_id: 4242, max_rounds: 3,
+                    first_ttl: 1, max_ttl: 30, grace_ns, max_inflight: 24, initial_sequence: 33434, min_ns, max_ns, max_samples: 256, max_flows: 64,
+                }, false));
+            }
+        }
+    }
     v
+}
+
+const UNBOUNDED: u64 = 4_000_000_000_000_000_000;
+fn dur(ns: u64) -> Duration {
+    if ns >= UNBOUNDED { Duration::MAX } else { Duration::from_nanos(ns) }
 }
 
 /// `Cfg::build` + the privilege mode
@@ -57,11 +75,11 @@ pub(crate) fn build(cfg: &Cfg, unprivileged: bool) -> Result<trippy_core::Tracer
         .trace_identifier(cfg.trace_id)
         .first_ttl(cfg.first_ttl)
         .max_ttl(cfg.max_ttl)
-        .grace_duration(Duration::from_nanos(cfg.grace_ns))
+        .grace_duration(dur(cfg.grace_ns))
         .max_inflight(cfg.max_inflight)
         .initial_sequence(cfg.initial_sequence)
-        .min_round_duration(Duration::from_nanos(cfg.min_ns))
-        .max_round_duration(Duration::from_nanos(cfg.max_ns))
+        .min_round_duration(dur(cfg.min_ns))
+        .max_round_duration(dur(cfg.max_ns))
         .max_samples(cfg.max_samples)
         .max_flows(cfg.max_flows)
         .max_rounds(Some(cfg.max_rounds))
@@ -114,7 +132,7 @@ fn emit(cfg: &Cfg, unprivileged: bool, out: &mut Out, stats: &mut std::collectio
     let o = run_cell(cfg, unprivileged);
     let orc = if o.contains("fault:panic") {
         "FAIL:C16:a_configuration_accepted_by_Builder::build_panicked_once_tracing_started".to_string()
-    } else if o.starts_with("accept") && !o.contains("run=ok rounds=3") {
+    } else if o.starts_with("accept") && !o.contains("run=ok rounds=3") && !((cfg.min_ns >= UNBOUNDED || cfg.grace_ns >= UNBOUNDED) && cfg.max_ns >= UNBOUNDED) {
         format!("FAIL:C16:accepted_cell_did_not_complete_3_rounds:{}", o.replace(' ', "_"))
     } else {
         "ok".to_string()
